@@ -4,7 +4,9 @@
 (* layout + workloads already deployed) and ONE API operation.  TLC        *)
 (* enumerates the space (every initial state is a scenario); the harness   *)
 (* executes each scenario fault-free, then once per single-fault placement *)
-(* (or crash placement) among the external calls the operation makes.      *)
+(* (or crash placement, or placement of "the caller gives up": its context *)
+(* is cancelled from that call on) among the external calls the operation  *)
+(* makes.                                                                  *)
 (***************************************************************************)
 EXTENDS Integers, Sequences, FiniteSets, TLC
 CONSTANTS Layouts, WlSets, Strategies, Counts, Reqs, Deltas, Modes, Includes
